@@ -70,7 +70,28 @@ def kindXCov (k : ModKind) (s : Stokes Float) (l : Nat) : Mat 4 4 Float :=
         let table : Array Float := crossCorrelationTable w n
         fun i j => outerSS i j * (table[l]! * var)
 
+def clampCur (x : Float) : Float := if currentSqrt22Clamped then (if x < 0.0 then 0.0 else x) else x
+
 def opsSim : List (String × Rd (List String)) := [
+  ("cov.seq", do
+      let rho ← hexFloat; let b0 ← hexFloat; let b1 ← hexFloat; let pat ← tok
+      let rest ← get
+      let devs ← listOf (rest.filter (fun t => !t.startsWith "#")).length hexFloat
+      let dv := devs.toArray
+      let ls0 := logSigmaOf b0; let ls1 := logSigmaOf b1
+      let var0 := lnVar ls0; let var1 := lnVar ls1
+      let header := [hx 1.0, hx var0, hx 1.0, hx var1, hx rho, hx (rho * Float.sqrt (var0 * var1))]
+      if pat.isEmpty then pure (header ++ ["0"]) else
+      match covBuild Float.exp Float.log Float.sqrt (fun a b => a > b) (fun a b => a < b) clampCur rho ls0 ls1 with
+      | .tooLarge => throw (.throw "bivariate_lognormal_modes::build maximum correlation exceeded")
+      | .tooSmall => throw (.throw "bivariate_lognormal_modes::build minimum correlation exceeded")
+      | .ok m =>
+        let (_, outs, used) := pat.toList.foldl (fun (acc : Coord Float × List Float × Nat) ch =>
+          let (c, os, u) := acc
+          let next := covDraw Float.exp m (dv.getD u 0.0) (dv.getD (u+1) 0.0)
+          let (c', v, drew) := c.request (ch == 'B') next
+          (c', os ++ [v.getD 0.0], if drew then u + 2 else u)) ((⟨[], [], []⟩ : Coord Float), [], 0)
+        pure (header ++ outs.map hx ++ [toString used])),
   ("mod.seq", do
       let k ← modKind; let m ← nat
       let rest ← get
